@@ -130,6 +130,14 @@ def run(ctx):
             g = bnp.Genome.from_file(path, sort_names=bool(c["seed"] % 2))       # genome order may differ from the file order
             seq = g.read_sequence()
             kept = [q for q in all_iv if "_" not in q[0]]          # Genome.from_file ignores '_' contigs by default
+            for nm, sq in recs:
+                if "_" in nm:
+                    continue
+                first = seq[nm]
+                if len(first) and getattr(first.raw(), "flags", None) is not None and first.raw().flags.writeable:
+                    first[0:1] = "N" if sq[0].upper() != "N" else "A"        # the caller edits what it fetched
+                again = seq[nm].to_string()
+                ctx.check("whole-contig", again.upper() == sq.upper(), "whole-contig-fetch:refetch-after-the-caller-edited-the-first-result", "second fetch of %s gave %r, the file has %r" % (nm, again[:12], sq[:12]), dict(c, text=text, name=nm), (text, nm, "refetch"))
             if not kept:
                 return
             gorder = list(g.get_genome_context().chrom_sizes)
@@ -188,6 +196,48 @@ def run(ctx):
             os.remove(path)
             os.remove(path + ".fai")
         ctx.run_case(big, "big")
+    # ---- records that do not fit the usual proportions: one unwrapped line of 70 000 bases; one record larger than the 5 000 000-byte read whose
+    #      read boundary falls exactly on a line end ((5 000 000 - header bytes) % bytes-per-line == 0) ------------------------------------------------
+    if ctx.shard in (1, 2):
+        def odd_shapes(_):
+            r = random.Random(77 + ctx.seed + ctx.shard)
+            nprng = np.random.default_rng(ctx.seed + 77 + ctx.shard)
+            path = ctx.path("odd.fa")
+            def rand_seq(L):
+                return nprng.choice(np.frombuffer(b"ACGT", dtype=np.uint8), size=L).tobytes().decode()
+            if ctx.shard == 1:
+                recs = [("short1", rand_seq(50), 50), ("unwrapped", rand_seq(70000), 70000), ("short2", rand_seq(131), 60)]
+            else:
+                # header '>bigrecord01\n' is 13 bytes and 5 000 000 % 61 == 13
+                recs = [("bigrecord01", rand_seq(5_400_000), 60), ("tail", rand_seq(200), 60)]
+            index, pos = [], 0
+            with open(path, "w") as f:
+                for name, sq, w in recs:
+                    h = ">%s\n" % name
+                    body = "".join(sq[j:j + w] + "\n" for j in range(0, len(sq), w))
+                    f.write(h + body)
+                    index.append((name, len(sq), pos + len(h), min(w, len(sq)), min(w, len(sq)) + 1))
+                    pos += len(h) + len(body)
+            idx = bnp.open_indexed(path)
+            rows = [l.rstrip("\n").split("\t") for l in open(path + ".fai")]
+            got = [(x[0], int(x[1]), int(x[2]), int(x[3]), int(x[4])) for x in rows]
+            tag = "unwrapped-line-of-70000" if ctx.shard == 1 else "record-larger-than-one-read"
+            ctx.check("fai-rows", got == index, "fai-index-rows:%s" % tag, ".fai %r differs from model %r" % (got, index), {"got": got, "expected": index}, tag)
+            d = {n: sq for n, sq, _ in recs}
+            qs = []
+            for n, sq, _ in recs:
+                L = len(sq)
+                for a in [0, L - 1, max(0, L - 70), L // 2, min(L - 1, 65530), min(L - 1, 65536)] + [r.randrange(L) for _ in range(6)]:
+                    qs.append((n, a, min(L, a + r.choice([1, 7, 61, 300]))))
+            res = text_rows(idx.get_interval_sequences(Interval([q[0] for q in qs], [q[1] for q in qs], [q[2] for q in qs])))
+            bad = [(q, g[:20], d[q[0]][q[1]:q[2]][:20]) for q, g in zip(qs, res) if g != d[q[0]][q[1]:q[2]]]
+            ctx.count("interval_fetches", len(qs))
+            ctx.check("interval:string", not bad, "interval-fetch:%s" % tag, "fetches differ: %r" % (bad[:2],), {"bad": bad[:4]}, tag + "q")
+            for n, sq, _ in recs:
+                ctx.check("whole-contig", idx[n].to_string() == sq, "whole-contig-fetch:%s" % tag, "whole contig %s differs (length %d)" % (n, len(sq)), {"name": n}, tag + n)
+            os.remove(path)
+            os.remove(path + ".fai")
+        ctx.run_case(odd_shapes, "odd")
     ctx.floor("interval_fetches", ctx.pick(1000, 20000))
     ctx.floor("judged:contig-lengths", ctx.pick(5, 100))
 
